@@ -426,7 +426,8 @@ def _coordinator_ok(hrows, start_row):
 
 
 def _bad_removes(hrows, upto):
-    """(index, known?) of RemoveActor operations that removed the record of a live instance on another node. Known (BlindRemove) iff the
+    """(index, known?) of RemoveActor operations that removed the record of a live instance (on another node or by another call on the
+    same node; an instance's own stop removes its record only after it has stopped). Known (BlindRemove) iff the
     removing relocation thread's gating GetActor had SUCCEEDED (no record, or the departed node's record) - a failed gating read is not."""
     out, running = [], {}
     for i, r in enumerate(hrows[:upto]):
@@ -434,7 +435,7 @@ def _bad_removes(hrows, upto):
             running[r["inst"]] = r["n"]
         elif r["ev"] == "stop":
             running.pop(r["inst"], None)
-        elif r["ev"] == "op" and r["op"] == "RemoveActor" and r.get("prev") not in ("", "-", "D", "?", None) and r["prev"] != r["n"] \
+        elif r["ev"] == "op" and r["op"] == "RemoveActor" and r.get("prev") not in ("", "-", "D", "?", None) \
                 and r["prev"] in running.values():
             gets = [g for g in hrows[:i] if g["ev"] == "op" and g["op"] == "GetActor" and g.get("t") and g.get("t") == r.get("t")]
             ok = bool(gets) and r.get("t") and (gets[-1]["res"] == 0 or (gets[-1]["res"] == 1 and gets[-1]["own"] == "D"))
@@ -643,7 +644,10 @@ def run_c36(ctx, pid):
         for (line, what, sid) in mm:
             a, b = next(((a, b) for a, b in spans if a < line <= b), (0, len(trows)))
             h = trows[a:b]
-            cls = [c for c in classify_c36(h, line - 1 - a) if ctx.is_known(c)]
+            # late events of an earlier history (a spawn single-flight that outlived its callers) do not belong to this one
+            keep = [r for r in h if r.get("id", h[0]["id"]) == h[0]["id"] and (r["ev"] != "op" or r.get("key") in ("", h[0]["id"]))]
+            e = trows[line - 1]
+            cls = [c for c in classify_c36(keep, keep.index(e)) if ctx.is_known(c)] if e in keep else []
             if cls:
                 for c in set(cls):
                     known_hits[c] += 1
